@@ -123,6 +123,9 @@ func (c *IClient) end(call *Call, err error) error {
 		return err
 	}
 	c.mu.Lock()
+	if err == nil && call.ambiguous != nil {
+		err = call.ambiguous // the write was applied; the caller is told it failed
+	}
 	if err != nil {
 		call.Err = errString(err)
 	}
